@@ -97,6 +97,26 @@ func runC38(t *testing.T, tp *simrt.Tape, keepTrace bool) hx.Result {
 	if err := c38Build(a.opts(dir), docs); err != nil {
 		return hx.Result{HarnessErr: "first build: " + err.Error()}
 	}
+	// an earlier metadata-only update left .meta sidecars next to the shards
+	// (written the way the indexserver's mergeMeta does)
+	sidecars := false
+	if tp.Gen(3) == 0 {
+		shards, _ := filepath.Glob(filepath.Join(dir, "*.zoekt"))
+		for _, sh := range shards {
+			repos, _, err := index.ReadMetadataPath(sh)
+			if err != nil || len(repos) != 1 {
+				return hx.Result{HarnessErr: fmt.Sprintf("sidecar: %v %d", err, len(repos))}
+			}
+			tmpP, finalP, err := index.JsonMarshalRepoMetaTemp(sh, repos[0])
+			if err != nil {
+				return hx.Result{HarnessErr: "sidecar: " + err.Error()}
+			}
+			if err := os.Rename(tmpP, finalP); err != nil {
+				return hx.Result{HarnessErr: "sidecar: " + err.Error()}
+			}
+		}
+		sidecars = true
+	}
 	// change something (or nothing)
 	b := a
 	b.branches = append([]string(nil), a.branches...)
@@ -162,8 +182,13 @@ func runC38(t *testing.T, tp *simrt.Tape, keepTrace bool) hx.Result {
 			changes = append(changes, "branch-set")
 			contentChange = true
 		case 5:
-			b.url = "http://example/inc-renamed-host"
-			changes = append(changes, "URL")
+			if tp.Gen(2) == 0 {
+				b.url = "http://example/inc-renamed-host"
+				changes = append(changes, "URL")
+			} else {
+				b.url = "" // the field is cleared (e.g. the web URL setting was removed)
+				changes = append(changes, "URL-cleared")
+			}
 			metaChange = true
 		case 6:
 			b.rawConfig = "7"
@@ -207,7 +232,7 @@ func runC38(t *testing.T, tp *simrt.Tape, keepTrace bool) hx.Result {
 	state, _ := ob.IndexState()
 	skip := ob.IncrementalSkipIndexing()
 	res.Evals++
-	desc := fmt.Sprintf("indexed with %v; now %v; changes %v; %s; IndexState=%s skip=%t", a, b, changes, killed, state, skip)
+	desc := fmt.Sprintf("indexed with %v (sidecars from an earlier metadata update: %t); now %v; changes %v; %s; IndexState=%s skip=%t", a, sidecars, b, changes, killed, state, skip)
 	cur := observe(dir)
 	fresh := filepath.Join(base, "fresh")
 	os.MkdirAll(fresh, 0o755)
@@ -240,9 +265,27 @@ func runC38(t *testing.T, tp *simrt.Tape, keepTrace bool) hx.Result {
 	if killed == "" && !contentChange && !metaChange && !skip {
 		res.Violations = append(res.Violations, hx.Violation{Sig: "unchanged-repository-not-skipped|none", Detail: desc})
 	}
+	// When the decision is "re-index", do it: afterwards the same request must be
+	// recognised as up to date and the index must be what a fresh build gives
+	// (otherwise the repository is re-indexed on every run without converging).
+	if !skip && killed == "" {
+		if err := c38Build(b.opts(dir), docs); err != nil {
+			res.Violations = append(res.Violations, hx.Violation{Sig: "re-index-fails|" + what, Detail: desc + ": " + err.Error()})
+		} else {
+			ob2 := b.opts(dir)
+			st2, _ := ob2.IndexState()
+			after := observe(dir)
+			res.Evals++
+			if st2 != index.IndexStateEqual {
+				res.Violations = append(res.Violations, hx.Violation{Sig: "not-up-to-date-after-re-index|" + what, Detail: fmt.Sprintf("%s; after a successful re-index with the new options IndexState=%s; files %v", desc, st2, lsDir(dir))})
+			} else if fmt.Sprint(after.Docs) != fmt.Sprint(want.Docs) || fmt.Sprint(after.Repos) != fmt.Sprint(want.Repos) || len(after.Unloadable) > 0 {
+				res.Violations = append(res.Violations, hx.Violation{Sig: "index-differs-from-fresh-build-after-re-index|" + what, Detail: fmt.Sprintf("%s; after the re-index: docs %v repos %v; a fresh build gives docs %v repos %v; files %v", desc, briefDocs(after.Docs), after.Repos, briefDocs(want.Docs), want.Repos, lsDir(dir))})
+			}
+		}
+	}
 	res.Sample = map[string]any{"scenario": desc}
 	res.Nontrivial = true
-	res.Hash = hash64(a.String(), b.String(), killed)
+	res.Hash = hash64(a.String(), b.String(), killed, fmt.Sprint(sidecars))
 	return res
 }
 
